@@ -16,24 +16,24 @@ MODES_WIDE = ["0600", "0660", "0640", "0666", "0606", "0644", "0620", "0700", "0
 MODES_NARROW = ["0400", "0060", "0000", "0440", "0200", "0066"]                                 # class D27
 ERRS = ["ENOSPC", "EACCES", "EPERM", "EIO", "ENOMEM"]
 
-# ------------------------------------------------------------------ proposed finding classes
-KF_NARROW = "KF-C05-narrow-mode-window"       # D27
-KF_SOCKDIR = "KF-C05-sock-dir-owner"          # D27b (repaired by fixes/D27b-…)
-KF_DIRCHMOD = "KF-C05-dir-chmod-failure-leak"
-KF_HDRFAIL = "KF-C05-rb-header-create-failure-ub"   # D27c (repaired by fixes/D27c-…)
-
-SHM_HDR_CALLS = {5, 6, 7, 15, 16, 17, 25, 26, 27}   # creat/ftruncate/fallocate of a ring header (accepted shm client)
+# ------------------------------------------------------------------ finding classes (KNOWN_FINDINGS.txt)
+KF_NARROW = "KF-C05-narrow-mode-window"       # D27, class narrowMode: chosen mode does not contain 0600
+KF_DIRCHMOD = "KF-C05-dir-chmod-failure-leak"  # class failAt2: the injected failure hits chmod(dir, 0770)
+# (D27b socket-transport directory owner and D27c ring-header creation failure are repaired in /repo:
+#  5cb555e, c2cb5c1; generated cases include both situations and must pass)
 
 
 def fail_points(transport, refused):
-    """call numbers a generated failure may hit (outside the proposed finding classes)"""
+    """call numbers a generated failure may hit (outside class failAt2)"""
     if refused:
         return [1, 3, 4, 5]
     if transport == "shm":
-        return [k for k in range(1, 52) if k != 2 and k not in SHM_HDR_CALLS]
-    # socket transport: set-up calls only (at tear-down the client process removes the control file and the
-    # directory itself, so the server's calls there find nothing left to fail on)
-    return [k for k in range(1, 9) if k != 2]
+        # 1-3 handle_new_connection, 4 chown dir, 5-34 the three rings, 35.. tear-down
+        return [k for k in range(1, 52) if k != 2]
+    # socket transport: set-up calls only (1-3, 4 chown dir, 5-7 control file, 8 chown, 9 chmod); at tear-down
+    # the client process removes the control file and the directory itself, so the server's calls there
+    # find nothing left to fail on
+    return [k for k in range(1, 10) if k != 2]
 
 
 def gen_cli(rng, idx, transport, narrow=False):
@@ -267,8 +267,7 @@ def check_client(t, um, c, b):
         final = b["snap"] if b["connect"] == 0 and t == "shm" else (setup[-1]["snap"] if setup else {})
         for name, (ty, m, u, g) in final.items():
             if (u, g) != ow:
-                kf = KF_SOCKDIR if (name == "." and t == "sock") else None
-                bad.append((kf, "%s: %s is owned by %d:%d, authorised owner is %d:%d" % (ident, name, u, g, ow[0], ow[1])))
+                bad.append((None, "%s: %s is owned by %d:%d, authorised owner is %d:%d" % (ident, name, u, g, ow[0], ow[1])))
         for name, (ty, m, u, g) in final.items():
             if name != "." and m != mode:
                 bad.append((None, "%s: %s ends with mode %04o, chosen %04o" % (ident, name, m, mode)))
@@ -290,11 +289,7 @@ def check_client(t, um, c, b):
 def oracle_all(ops, out):
     if any(l.startswith(("SAN:", "CRASH", "TIMEOUT")) for l in out):
         tag = [l for l in out if l.startswith(("SAN:", "CRASH", "TIMEOUT"))][0]
-        kf = None
-        for t, um, c in clients_of(ops):
-            if t == "shm" and c["rc"] == 0 and c["failv"] and c["failv"][0] in SHM_HDR_CALLS and tag == "SAN:ub":
-                kf = KF_HDRFAIL
-        return [(kf, "the server process died: %s" % tag)]
+        return [(None, "the server process died: %s" % tag)]
     blocks = blocks_of(out)
     bad = []
     for t, um, c in clients_of(ops):
@@ -306,7 +301,7 @@ def oracle_all(ops, out):
 
 
 def oracle(ops, out):
-    """first violation outside the proposed finding classes, else the first inside, else None"""
+    """first violation outside the finding classes, else the first inside, else None"""
     bad = oracle_all(ops, out)
     new = [x for x in bad if x[0] is None]
     if new:
@@ -393,7 +388,12 @@ def cover(ops, out):
             if c["authv"][2] != 0o600:
                 tags.add("auth-mode")
         if c["failv"] and injected_call(b, c) is not None:
-            tags.add("fail-" + injected_call(b, c)["call"])
+            f = injected_call(b, c)
+            tags.add("fail-" + f["call"])
+            if f["path"].endswith("-header") and f["call"] in ("open", "ftruncate", "fallocate"):
+                tags.add("fail-ring-header-create")
+        if t == "sock" and c["authv"] and c["rc"] == 0 and b["accept"] and (c["authv"][0], c["authv"][1]) != b["accept"][0]:
+            tags.add("sock-auth-other-owner")
         if c["ids"] == "eff":
             tags.add("real-ne-effective")
         if c["uid"] != 0:
